@@ -784,3 +784,28 @@ pub fn verif_localize_path(
     localize_path(path, old_locale_segments, new_locale_segments, &mut path_builder)?;
     Some(path_builder.build())
 }
+
+/// Verification hook: the private `get_new_path` on a `Location` made of constant memos and a route table given as a list.
+/// Must be called inside a reactive `Owner`.
+#[cfg(feature = "verif_hooks")]
+pub fn verif_get_new_path<L: Locale>(
+    pathname: &str,
+    search: &str,
+    hash: &str,
+    base_path: &str,
+    new_locale: L,
+    locale: Option<L>,
+    route_segments: Vec<(L, Vec<Vec<PathSegment>>)>,
+) -> String {
+    use leptos::prelude::{Memo, RwSignal};
+    let (pathname, search, hash) = (pathname.to_owned(), search.to_owned(), hash.to_owned());
+    let location = Location {
+        pathname: Memo::new(move |_| pathname.clone()),
+        search: Memo::new(move |_| search.clone()),
+        query: Memo::new(|_| Default::default()),
+        hash: Memo::new(move |_| hash.clone()),
+        state: RwSignal::new(Default::default()).read_only(),
+    };
+    let segments = RouteSegments(Arc::new(Mutex::new(route_segments.into_iter().collect())));
+    get_new_path(&location, base_path, new_locale, locale, segments)
+}
